@@ -80,3 +80,9 @@ pub assume_specification<T, A> [std::collections::VecDeque::<T, A>::clear] (d: &
     where A: std::alloc::Allocator,
     ensures final(d)@ =~= Seq::<T>::empty();
 '''
+
+RUST_PANIC = r'''
+// a reachable panic is a failed obligation
+#[verifier::external_body]
+fn rust_panic() requires false { unimplemented!() }
+'''
